@@ -21,7 +21,13 @@ ASSUMPTIONS = ['documented format: YYYY/MM/DD and "YYYY/MM/DD - YYYY/MM/DD"; ent
 
 SUBDAYS = ['2020/02/27', '2020/02/28', '2020/02/29', '2020/03/01', '2020/03/02']
 MALFORMED = ['2020/02/30', '2021/02/29', '2020/13/01', '2020/00/10', 'yesterday', '', ' ', '2020/01/01 - 2020/01/05 - 2020/01/09',
-             '2020/01/05 - 2020/02/30', 'abc - 2020/01/01', '2020/01/01 - ', ' - 2020/01/01', '-']
+             '2020/01/05 - 2020/02/30', 'abc - 2020/01/01', '2020/01/01 - ', ' - 2020/01/01', '-',
+             # a valid day EMBEDDED in stray characters (typos): still malformed
+             '2020/10/100', '2020/10/10x', 'x2020/10/10', '12020/10/10', '2020/10/1O', '2020/10/10 to 2020/10/12',
+             '2020/10/10,2020/10/12', '2020/10/05 - 2020/10/077', '2020/10/05x - 2020/10/07', '2020/10/10 2020/10/12',
+             '(2020/10/10)', '2020/10/10 - 2020/10/12 -']
+# (strings the date parser of pandas itself reads as a day - '2020/10/10.', '2020//10/10', '2020/10/10/' - are not in the
+# alphabet: whether such near-format spellings are malformed is not for this check to decide, see ASSUMPTIONS)
 
 
 def entries():
